@@ -8,7 +8,6 @@ import (
 	"github.com/openGemini/openGemini/lib/fileops"
 	"github.com/openGemini/openGemini/lib/record"
 	"github.com/openGemini/openGemini/lib/util"
-	"github.com/openGemini/openGemini/lib/util/lifted/vm/protoparser/influx"
 )
 
 // Hook for the verification harness (/verif, property C03). Compiled only with the `verif`
@@ -69,8 +68,6 @@ func VerifReadFileMeta(f TSSPFile) (VerifC03FileMeta, error) {
 	out := VerifC03FileMeta{Name: filepath.Base(f.Path()), Order: f.IsOrder(), MinID: tr.minId, MaxID: tr.maxId,
 		IDCount: tr.idCount, MinTime: tr.minTime, MaxTime: tr.maxTime}
 	n := int(f.MetaIndexItemNum())
-	decs := NewReadContext(true)
-	schema := record.Schemas{record.Field{Name: record.TimeField, Type: influx.Field_Type_Int}}
 	for i := 0; i < n; i++ {
 		mi, err := f.MetaIndexAt(i)
 		if err != nil {
@@ -85,11 +82,16 @@ func VerifReadFileMeta(f TSSPFile) (VerifC03FileMeta, error) {
 			cm := &cms[j]
 			ok, _ := f.Contains(cm.sid)
 			ch := VerifC03Chunk{Sid: cm.sid, InBloom: ok}
+			var schema record.Schemas
+			for c := range cm.colMeta {
+				col := &cm.colMeta[c]
+				schema = append(schema, record.Field{Name: col.Name(), Type: int(col.ty)})
+			}
 			for s := 0; s < int(cm.segCount); s++ {
 				sr := cm.timeRange[s]
 				seg := VerifC03Segment{Min: sr[0], Max: sr[1]}
-				rec := record.NewRecordBuilder(schema)
-				rec, err = f.ReadAt(cm, s, rec, decs, fileops.IO_PRIORITY_LOW_READ)
+				rec := record.NewRecordBuilder(schema.Copy())
+				rec, err = f.ReadAt(cm, s, rec, NewReadContext(true), fileops.IO_PRIORITY_LOW_READ)
 				if err != nil {
 					return out, err
 				}
